@@ -880,6 +880,35 @@ theorem path_ahabV2 (c : CryptoOps) (hc : CryptoLaws c) (kcs : List (Key × Bool
 
 theorem beMin_len (v : Nat) : (beMin v).length = byteLen v := by simp [beMin, beEnc_length']
 
+/-- the generated description of `SrkItemEcc.__init__` / `export` (field sources, shifts, masks, coordinate-size rule, curve table)
+    evaluates, for each of the three curves, to the documented HAB item: key size in BITS (P-521: 0x0209), fixed-width X ‖ Y -/
+theorem habEccExport_curve (cv : Curve) (x y : Nat) (ca : Bool) (hx : x < 256 ^ cv.coordSize) (hy : y < 256 ^ cv.coordSize) :
+    habEccExport { keySize := cv.bits, x := x, y := y, flag := if ca then 0x80 else 0 } = .ok (habItem (.ecc cv x y) ca) := by
+  have e1 : UInt8.ofNat G.habTagKeyPublic = 0xE1 := by decide
+  have e2 : UInt8.ofNat G.habAlgEcdsa = 0x27 := by decide
+  have hcs : habCoordSize cv.bits = cv.coordSize := by cases cv <;> decide
+  have hfl : ¬ ((if ca then 0x80 else 0 : Nat) ≠ 0 ∧ (if ca then 0x80 else 0 : Nat) ≠ 0x80) := by cases ca <;> decide
+  have hlen : ¬ (12 + 2 * cv.coordSize ≥ 65536) := by cases cv <;> decide
+  have hl : G.habHeaderSize + G.habEccLenExtra + cv.coordSize + cv.coordSize = 12 + 2 * cv.coordSize := by
+    have a : G.habHeaderSize = 4 := rfl
+    have b : G.habEccLenExtra = 8 := rfl
+    rw [a, b]; omega
+  have hcurve : ∃ nm id, habCurveName cv.bits = .ok nm ∧ G.habEccKeyType.lookup nm = some id ∧
+      (G.habEccExportFields.map (habEccField (if ca then 0x80 else 0) id cv.bits)).any (fun v => decide (v ≥ 256)) = false ∧
+      (G.habEccExportFields.map (habEccField (if ca then 0x80 else 0) id cv.bits)).map UInt8.ofNat =
+        [0, 0, 0, byte (caFlag ca), byte cv.habId, 0] ++ beEnc 2 cv.bits := by
+    cases cv <;> cases ca
+    · exact ⟨"secp256r1", 0x4B, by decide, by decide, by decide, by decide⟩
+    · exact ⟨"secp256r1", 0x4B, by decide, by decide, by decide, by decide⟩
+    · exact ⟨"secp384r1", 0x4D, by decide, by decide, by decide, by decide⟩
+    · exact ⟨"secp384r1", 0x4D, by decide, by decide, by decide, by decide⟩
+    · exact ⟨"secp521r1", 0x4E, by decide, by decide, by decide, by decide⟩
+    · exact ⟨"secp521r1", 0x4E, by decide, by decide, by decide, by decide⟩
+  obtain ⟨nm, id, hnm, hid, hany, hf⟩ := hcurve
+  simp only [habEccExport, hfl, hcs, toBytes_fit _ _ hx, toBytes_fit _ _ hy, bind_ok, pure_eq_ok, beEnc_length', hlen, hnm, hid,
+    hany, hf, hl, e1, e2, ↓reduceIte, Bool.false_eq_true, habItem]
+  simp only [List.append_assoc, List.cons_append, List.nil_append]
+
 theorem habItemExport_ok (k : Key) (ca : Bool) (h : keyOK k = true) : habItemExport k ca = .ok (habItem k ca) := by
   have e1 : UInt8.ofNat G.habTagKeyPublic = 0xE1 := by decide
   cases k with
@@ -896,16 +925,7 @@ theorem habItemExport_ok (k : Key) (ca : Bool) (h : keyOK k = true) : habItemExp
     simp only [habItemExport, toBytes_min, bind_ok, beMin_len, hlt, ↓reduceIte, pure_eq_ok, e1, e2, habItem, caFlag, byte]
   | ecc cv x y =>
     obtain ⟨hx, hy⟩ := keyOK_ecc h
-    have e2 : UInt8.ofNat G.habAlgEcdsa = 0x27 := by decide
-    simp only [habItemExport, coordSize_eq, toBytes_fit _ _ hx, toBytes_fit _ _ hy, bind_ok, pure_eq_ok, e1, e2,
-      beEnc_length', habItem, caFlag, byte]
-    have l1 : G.habEccKeyType.lookup "secp256r1" = some 0x4B := by decide
-    have l2 : G.habEccKeyType.lookup "secp384r1" = some 0x4D := by decide
-    have l3 : G.habEccKeyType.lookup "secp521r1" = some 0x4E := by decide
-    have b1 : beEnc 2 256 = [1, 0] := by decide
-    have b2 : beEnc 2 384 = [1, 128] := by decide
-    have b3 : beEnc 2 521 = [2, 9] := by decide
-    cases cv <;> cases ca <;> simp [Curve.pyName, Curve.coordSize, Curve.bits, Curve.habId, l1, l2, l3, b1, b2, b3]
+    exact habEccExport_curve cv x y ca hx hy
 
 theorem path_hab (c : CryptoOps) (kcs : List (Key × Bool)) (h : ∀ kc ∈ kcs, keyOK kc.1 = true) :
     pathHab c kcs = .ok (rotkhHab c kcs) := by
